@@ -1081,6 +1081,103 @@ class Runner:
                 if mv != got and mv != 'undef':
                     self.disagree('fmt:recippartfrac', case, {'point': ptstr(pt), 'lcapy': got, 'model': mv})
 
+
+    # ---------------- damping= option (QuadraticRoot): symbolic second-order denominators
+    def damping_case(self, case, rng):
+        """B(s) / (s^2 + 2 zeta omega0 s + omega0^2) with the symbols zeta, omega0 and damping='under' / 'over':
+        poles(damping), partfrac(damping), as_QRPO(damping) judged by rootsCheck / the spec value / pfCheck at rational
+        values of the symbols for which sqrt(1 - zeta^2) resp. sqrt(zeta^2 - 1) is rational"""
+        chk, L_ = self.chk, self.L
+        S = L_.sym
+        v = L_.VAR['s']
+        zeta, w0 = S.Symbol('zeta', positive=True), S.Symbol('omega0', positive=True)
+        damp = case['damping']
+        Be = S.Rational(case['damped']['lcB'])
+        for c in case['damped']['zeros']:
+            Be = Be * (v - S.Rational(c))
+        e = S.expand(Be) / (v**2 + 2 * zeta * w0 * v + w0**2)
+        h = head(case)
+        pts = self.points(case, rng, 2)
+        chk.case(('damped', tuple(case['B']), tuple(case['A']), damp), bool(pts))
+        chk.count('damping', damp)
+        if not pts:
+            return
+
+        def fresh():
+            return L_.lcapy.expr(e)       # poles are cached per expression regardless of the damping argument
+        for nm, call in (('partfrac', lambda: fresh().partfrac(damping=damp)),
+                         ('partfrac_pairs', lambda: fresh().partfrac(damping=damp, pairs=True))):
+            res, err = L_.timed(call, self.tlimit)
+            if err:
+                chk.count('lcapy-error', '%s(damping):%s' % (nm, err))
+                continue
+            chk.count('format', '%s(damping=%s)' % (nm, damp))
+            for (pt, sv) in pts:
+                try:
+                    got = L_.evalat(res, case, pt)
+                except Exception:   # noqa
+                    chk.count('degenerate', 'unevaluable:%s(damping)' % nm)
+                    continue
+                if self.ask('rf.same %s %s | %s' % (h, ptstr(pt), got)) != 'true':
+                    self.cex(case, {'kind': 'format', 'format': nm, 'damping': damp},
+                             {'format': nm, 'damping': damp, 'point': ptstr(pt), 'lcapy_value': got, 'spec_value': sv, 'lcapy_result': str(res)[:300]},
+                             '%s(damping=%s) changes the value of the expression' % (nm, damp))
+                    break
+        d, err = L_.timed(lambda: fresh().poles(damping=damp), self.tlimit)
+        ptab = None
+        if err:
+            chk.count('lcapy-error', 'poles(damping):%s' % err)
+        else:
+            try:
+                ptab = table_tokens(L_, d, case)
+                r = self.ask('poly.rootscheck | %s | %s' % (' '.join(case['A']), ptab)).split()
+                chk.count('data', 'poles(damping=%s)' % damp)
+                if r[0] != 'true' or r[1] != r[2]:
+                    self.cex(case, {'kind': 'data', 'method': 'poles', 'damping': damp},
+                             {'polynomial(low first)': case['A'], 'reported': ptab, 'rootsCheck': r[0], 'lcapy': str(d)[:300]},
+                             'poles(damping=%s): reported roots do not factorise the denominator' % damp)
+                    ptab = None
+            except Unevaluable:
+                chk.count('degenerate', 'surd-roots:poles(damping)')
+                ptab = None
+        q, err = L_.timed(lambda: fresh()._ratfun.as_QRPO(damping=damp), self.tlimit)
+        if err:
+            chk.count('lcapy-error', 'as_QRPO(damping):%s' % err)
+        elif ptab is not None:
+            try:
+                sub = {S.Symbol(n, positive=True): L_.srat(Fraction(val)) for n, val in case['symvals'].items()}
+                Qt = poly_coeffs(L_, q[0], case)
+                terms = ' '.join('%s %s %d' % (L_.to_cq(S.sympify(r_).subs(sub)), L_.to_cq(S.sympify(p_).subs(sub)), int(o_))
+                                 for r_, p_, o_ in zip(q[1], q[2], q[3]))
+                ok = self.ask('rf.pfcheck | %s | %s | %s | %s | %s' % (' '.join(case['B']), ' '.join(case['A']), ' '.join(Qt), ptab, terms))
+                chk.count('data', 'as_QRPO(damping=%s)' % damp)
+                if ok != 'true':
+                    self.cex(case, {'kind': 'data', 'method': 'as_QRPO', 'damping': damp},
+                             {'B': case['B'], 'A': case['A'], 'Q': Qt, 'poles': ptab, 'terms(r p o)': terms, 'pfCheck': ok},
+                             'as_QRPO(damping=%s): quotient, poles and residues do not reconstruct B/A' % damp)
+            except Unevaluable:
+                chk.count('degenerate', 'surd-residues:as_QRPO(damping)')
+
+    def damping_checks(self, rng, n):
+        L_ = self.L
+        S = L_.sym
+        v = L_.VAR['s']
+        for i in range(n):
+            damp = ['under', 'over'][i % 2]
+            zv = rng.choice([Fraction(3, 5), Fraction(4, 5), Fraction(5, 13)]) if damp == 'under' else \
+                rng.choice([Fraction(5, 3), Fraction(5, 4), Fraction(13, 5)])
+            wv = Fraction(rng.randint(1, 4), rng.choice([1, 2]))
+            zeros = [fstr(rand_rat(rng, -4, 4, (1, 2))) for _ in range([1, 0, 2, 1][(i // 2) % 4])]
+            lcB = fstr(rand_rat(rng, -5, 5, (1, 2), nz=True))
+            case = {'domain': 's', 'kind': 'damped', 'symvals': {'zeta': fstr(zv), 'omega0': fstr(wv)}, 'T': '0', 'nu': 0,
+                    'damping': damp, 'damped': {'lcB': lcB, 'zeros': zeros}}
+            Be = S.Rational(lcB)
+            for c in zeros:
+                Be = Be * (v - S.Rational(c))
+            case['B'] = [L_.to_cq(c) for c in reversed(S.Poly(S.expand(Be), v).all_coeffs())]
+            case['A'] = [fstr(wv * wv), fstr(2 * zv * wv), '1']
+            self.damping_case(case, rng)
+
     # ---------------- zp2tf with list / dictionary arguments
     def zp2tf_checks(self, rng, n):
         chk, L_ = self.chk, self.L
@@ -1159,6 +1256,7 @@ def run(chk, replay=None):
                             'B, A from root tables (rational, zero, repeated, conjugate pairs, lone Gaussian roots), random coefficients, '
                             'symbolic coefficients sampled at rational values, or with a common factor; deg 0..4 each; T in {0, k/2}; nu in {0,1,2}; '
                             'in the z domain also written in powers of 1/z; '
+                            'a separate stream B(s)/(s^2 + 2 zeta omega0 s + omega0^2) with symbolic zeta, omega0 exercises the damping= option of poles / partfrac / as_QRPO; '
                             'every formatting method/option is called on it and judged at 2 (quick) / 3 (thorough) random rational points; '
                             'the data-returning methods (coeffs, normcoeffs, Ratfun.coeffs, ba, degrees, poles/zeros dictionaries and lists, as_QMA, as_QRPO, '
                             'the as_QRPO data of the function of 1/var behind recippartfrac) are compared structurally with the model and judged by the Lean checkers; '
@@ -1168,7 +1266,9 @@ def run(chk, replay=None):
         import json
         rp = json.load(open(replay if os.path.isabs(replay) else os.path.join(common.VERIF, replay)))
         case = rp.get('input')
-        if case and 'B' in case:
+        if case and case.get('kind') == 'damped':
+            R.damping_case(case, rng)
+        elif case and 'B' in case:
             R.run_case(case, rng)
         elif case:
             R.zp2tf_checks(rng, 8)
@@ -1196,6 +1296,7 @@ def run(chk, replay=None):
                 chk.sample({k: case[k] for k in ('domain', 'kind', 'B', 'A', 'T', 'nu', 'symvals')})
             R.run_case(case, rng)
         R.zp2tf_checks(rng, 8 if chk.tier == 'quick' else 40)
+        R.damping_checks(rng, 4 if chk.tier == 'quick' else 16)
     # ---- 4. classification
     chk.coverage['correspondence']['samples_of_disagreement'] = R.disagreements[:5]
     if broken and R.counterexamples == 0 and not chk.known_seen:
